@@ -1126,6 +1126,65 @@ func (c *FCtx) args(vals []ssa.Value) []*Term {
 	return r
 }
 
+// freeze: argument sub-terms that read a location the call itself may write denote the value BEFORE the call;
+// they are wrapped so that they do not alias the live location afterwards.
+func (c *FCtx) freeze(at ssa.Value, args []*Term) []*Term {
+	ci, ok := at.(ssa.CallInstruction)
+	if !ok || c.A.writes == nil {
+		return args
+	}
+	w := c.A.callWrites(ci)
+	if len(w) == 0 {
+		return args
+	}
+	id := funcID(c.Fn) + "#" + at.Name()
+	out := make([]*Term, len(args))
+	for i, a := range args {
+		out[i] = c.freezeTerm(a, w, id)
+	}
+	return out
+}
+
+func (c *FCtx) freezeTerm(t *Term, w map[string]bool, id string) *Term {
+	if t.Op == "pre" || t.Op == "this" || t.Op == "const" {
+		return t
+	}
+	reads := map[string]bool{}
+	c.A.termReads(t, reads)
+	hit := false
+	for l := range reads {
+		if w[l] {
+			hit = true
+		}
+	}
+	if !hit {
+		return t
+	}
+	// freeze at the smallest sub-term that itself is a read of a written location
+	if t.Op == "field" && len(t.Args) == 1 && t.Args[0].Op == "this" {
+		return T("pre", id, t)
+	}
+	if len(t.Args) == 0 {
+		return T("pre", id, t)
+	}
+	if t.Op == "call" {
+		// a call term whose callee reads the location: freeze the whole term
+		own := map[string]bool{}
+		shallow := &Term{Op: t.Op, Name: t.Name}
+		c.A.termReads(shallow, own)
+		for l := range own {
+			if w[l] {
+				return T("pre", id, t)
+			}
+		}
+	}
+	na := make([]*Term, len(t.Args))
+	for i, a := range t.Args {
+		na[i] = c.freezeTerm(a, w, id)
+	}
+	return rebuild(t, na)
+}
+
 func (c *FCtx) callTerm(at ssa.Value, cc *ssa.CallCommon) *Term {
 	if b, ok := cc.Value.(*ssa.Builtin); ok {
 		args := c.args(cc.Args)
@@ -1149,7 +1208,7 @@ func (c *FCtx) callTerm(at ssa.Value, cc *ssa.CallCommon) *Term {
 	}
 	if cc.IsInvoke() {
 		recv := c.Term(cc.Value)
-		args := append([]*Term{recv}, c.args(cc.Args)...)
+		args := c.freeze(at, append([]*Term{recv}, c.args(cc.Args)...))
 		name := methodShort(cc.Method)
 		if t := c.intrinsic(name, args); t != nil {
 			return t
@@ -1181,7 +1240,7 @@ func (c *FCtx) callTerm(at ssa.Value, cc *ssa.CallCommon) *Term {
 		return mkCall(name, args)
 	}
 	if f := cc.StaticCallee(); f != nil {
-		args := c.args(cc.Args)
+		args := c.freeze(at, c.args(cc.Args))
 		// iterator element: it.NextX() inside the iterator's loop
 		if in, ok := at.(ssa.Instruction); ok && strings.HasPrefix(f.Name(), "Next") && len(cc.Args) == 1 && isIteratorType(cc.Args[0].Type()) {
 			for _, l := range c.A.Loops(c.Fn).Loops {
@@ -1198,7 +1257,7 @@ func (c *FCtx) callTerm(at ssa.Value, cc *ssa.CallCommon) *Term {
 	}
 	// dynamic call through a func value
 	fv := c.Term(cc.Value)
-	args := c.args(cc.Args)
+	args := c.freeze(at, c.args(cc.Args))
 	if fv.Op == "closure" {
 		if f := c.A.P.FuncByID[fv.Name]; f != nil {
 			return c.staticCall(f, args, fv.Args)
